@@ -17,7 +17,7 @@ func init() {
 		Rules: map[string]string{
 			"R1": "set-up typestate on the ready group; nobody pre-readied; game count stored before Start; the gate's own participant map is replaced by a fresh empty map after Stop and before every Add, with one entry per Add",
 			"R2": "unknown participant → error before any ready-group signal; IsReady only on success; own index signalled; no known-nil error returned",
-			"R3": "single completion function: marks all ready, passes a by-value snapshot, invokes the user callback unconditionally; reachable only as OnCompleted callback",
+			"R3": "single completion function: marks all ready, passes a by-value snapshot, invokes the user callback unconditionally; reachable only as OnCompleted callback; the completion path never operates on the (shared, re-armed) ready group",
 			"R4": "timeout wiring in both constructors",
 			"R7": "the dependency's ready group takes its read lock twice while validating a signal (C16.R7): the gate adds participants only to a group created in the same function — a set-up that re-arms the group it used before can deadlock, fire early or fire for the superseded set-up when signals are still pending",
 			"R6": "receiver discipline: no method of these types assigns to a field of a value receiver (the assignment would be lost) or copies a sync.* field through its receiver (the gate)",
@@ -400,6 +400,58 @@ func checkC09(c *Ctx) {
 		}
 	}
 	c.Check(nCb == 1, "R3", "single-callback-site", "-", "user callback invoked from exactly one place", fmt.Sprintf("the user callback is invoked from %d places", nCb))
+	// … and the completion leaves the ready group alone. It runs on the group's own goroutine, after the gate has
+	// fired — by then a new set-up may have re-armed the very same group: stopping, resetting, adding to or
+	// signalling the group from here lands on the *next* set-up (its signals are dropped, its timer cancelled).
+	if completion != nil {
+		seen := map[*ssa.Function]bool{}
+		work := []*ssa.Function{completion}
+		for _, f := range p.Funcs {
+			if f.Parent() != nil && inPkg(p, f, "/open_game_manager") {
+				for _, ci := range Calls(f) {
+					if ci.Common().StaticCallee() == completion {
+						work = append(work, f)
+					}
+				}
+			}
+		}
+		okQuiet := true
+		for len(work) > 0 {
+			f := work[0]
+			work = work[1:]
+			if seen[f] {
+				continue
+			}
+			seen[f] = true
+			for _, ci := range Calls(f) {
+				sc := ci.Common().StaticCallee()
+				if sc == nil {
+					continue
+				}
+				if recv := sc.Signature.Recv(); recv != nil {
+					if n := namedOf(recv.Type()); n != nil && n.Obj().Name() == "ReadyGroup" && n.Obj().Pkg() != nil && strings.HasSuffix(n.Obj().Pkg().Path(), "syncsaga") {
+						if sc.Name() != "GetParticipantStates" {
+							okQuiet = false
+							c.Bad("R3", "completion-leaves-the-group-alone:"+sc.Name(), p.InstrPos(ci), "the completion path calls ReadyGroup."+sc.Name()+": it runs asynchronously after the gate fired, when a new set-up may already have re-armed the same group — the call lands on that set-up (signals dropped / timer cancelled / fired again)")
+						}
+						continue
+					}
+				}
+				if inPkg(p, sc, "/open_game_manager") {
+					work = append(work, sc)
+				}
+				for _, an := range sc.AnonFuncs {
+					work = append(work, an)
+				}
+			}
+			for _, an := range f.AnonFuncs {
+				work = append(work, an)
+			}
+		}
+		if okQuiet {
+			c.Ok("R3", "completion-leaves-the-group-alone", p.Pos(completion.Pos()), fmt.Sprintf("%d function(s) on the completion path; none operates on the ready group", len(seen)))
+		}
+	}
 	if completion != nil {
 		// GetState returns a copy
 		if gs := p.Method(gt, "GetState"); gs != nil {
